@@ -92,4 +92,77 @@ theorem incomparablePattern_spec (vs : List Data) (k : Nat) (fs : List (Val α))
     simp only [Bool.false_eq_true, if_false, matchPat]
     exact h1
 
+theorem relevantIdx_lt' (d : Data) (t : Trait) : ∀ i ∈ d.relevantIdx t, i < d.fields.length := by
+  intro i hi
+  simp only [Data.relevantIdx, List.mem_filter, List.mem_range] at hi
+  exact hi.1
+
+theorem isEmpty_iff_relevantIdx' (d : Data) (t : Trait) :
+    d.isEmpty t = (d.relevantIdx t).isEmpty := by
+  unfold Data.isEmpty
+  rw [← Data.iterFields_fst]
+  cases d.iterFields t <;> simp
+
+/-- Shape of a variant that has a relevant field. -/
+theorem shape_of_nonempty' (d : Data) (t : Trait) (hwf : d.WF) (hnu : d.shape ≠ .union)
+    (hne : d.isEmpty t = false) : d.shape = .named ∨ d.shape = .tuple := by
+  cases hs : d.shape with
+  | named => exact Or.inl rfl
+  | tuple => exact Or.inr rfl
+  | unit =>
+    have := hwf.unit_no_fields hs
+    rw [isEmpty_iff_relevantIdx'] at hne
+    simp [Data.relevantIdx, this] at hne
+  | union => exact absurd hs hnu
+
+theorem isIncomparable_spec (it : Item) (k : Nat) (d : Data) (hd : it.variants[k]? = some d)
+    (h : it.isIncomparable = true) : (it.markedIncomparable || d.incomparable) = true := by
+  cases it with
+  | enum_ disc id inc vs =>
+    simp only [Item.isIncomparable, Bool.or_eq_true, Bool.and_eq_true, List.all_eq_true] at h
+    simp only [Item.markedIncomparable, Bool.or_eq_true]
+    rcases h with h | ⟨_, h⟩
+    · exact Or.inl h
+    · exact Or.inr (h d (List.mem_of_getElem? hd))
+  | item d' =>
+    simp only [Item.variants] at hd
+    simp [Item.isIncomparable] at h
+    simp [Item.markedIncomparable, h]
+
+theorem not_isIncomparable_marked (it : Item) (h : it.isIncomparable = false) :
+    it.markedIncomparable = false := by
+  cases it with
+  | enum_ disc id inc vs =>
+    simp only [Item.isIncomparable, Bool.or_eq_false_iff] at h
+    exact h.1
+  | item d => simpa [Item.isIncomparable, Item.markedIncomparable] using h
+
+theorem matchPat_tuple_rest (p : Pat) (v w : Val α) :
+    matchPat (.tuple [p, .rest]) (.tuple [v, w]) = (matchPat p v).map (· ++ []) := by
+  cases h : matchPat p v <;> simp [matchPat, matchPats, h]
+
+/-- Facts about the (at most one) variant of an item that is not a
+multi-variant enum. -/
+theorem single_variant (it : Item)
+    (hsingle : it.multi = false)
+    (k : Nat) (d : Data) (hd : it.variants[k]? = some d) :
+    k = 0 ∧ it.variants = [d] := by
+  cases it with
+  | enum_ disc id inc vs =>
+    simp only [Item.variants] at hd ⊢
+    have hk : k < vs.length := by
+      rcases Nat.lt_or_ge k vs.length with h | h
+      · exact h
+      · rw [List.getElem?_eq_none h] at hd; cases hd
+    have h0 : k = 0 := by simp [Item.multi] at hsingle; omega
+    subst h0
+    match vs, hd, hk, hsingle with
+    | [v], hd, _, _ => simp at hd; simp [hd]
+    | _ :: _ :: _, _, _, hs => simp [Item.multi] at hs
+  | item d' =>
+    simp only [Item.variants] at hd ⊢
+    match k, hd with
+    | 0, hd => simp at hd; simp [hd]
+    | k + 1, hd => simp at hd
+
 end DW
